@@ -172,7 +172,7 @@ def run(prop, tier):
                 "traces_validated_against_impl": n1 + n2 + consumed,
                 "samples": [{"writer_behaviour": [55, 64, 1], "then": "Digest", "checked": "bufferLength, bytesHashed, chunks after every step; digest == node:crypto"},
                             {"rewrite_class_seed": next(s["_src"] for s in states if s["steps"] == 0)}],
-                "exhaustive": tier == "quick",
+                "exhaustive": False,   # the writer model and the rewrite classes are enumerated completely, the separation programs include a sample
                 "rule": "writer: all sequences of <= MaxWrites writes over 16 boundary sizes; separation: all TypeGen programs on the common pool; "
                         "invariance: Rewrite.tla classes"})
     vlib.write_evidence(prop, tier, cov, time.time() - t0, len(v1) + len(v2) + len(v3),
